@@ -105,6 +105,14 @@ async def consume_a(b, plan, close, keep=None):
         if isinstance(o, list) and o[0] == "mutate":
             mutate_source(b, o)
             continue
+        if isinstance(o, list) and o[0] == "reiter":
+            # the consumer starts another loop over the same iterator: aiter() of an iterator is that iterator
+            if o[1] < len(outs) and outs[o[1]] is not None and hasattr(outs[o[1]], "__aiter__"):
+                again = outs[o[1]].__aiter__()
+                if again is not outs[o[1]]:
+                    ctx.ev("yield", o[1], ("aiter-returned-another-object",))
+                outs[o[1]] = again
+            continue
         if isinstance(o, list) and o[0] == "again":
             # an iterator that FAILED is asked again (library side only: the stdlib counterparts differ in what
             # they do then); whatever it answers, it must not touch a source or a callable to do so
@@ -193,6 +201,10 @@ def consume_s(b, plan, keep=None):
             mutate_source(b, o)
             continue
         if isinstance(o, list) and o[0] == "again":
+            continue
+        if isinstance(o, list) and o[0] == "reiter":
+            if o[1] < len(outs) and outs[o[1]] is not None:
+                outs[o[1]] = iter(outs[o[1]])
             continue
         if isinstance(o, list) and o[0] == "repoll":
             if o[1] < len(outs) and done[o[1]] == "stop":
